@@ -90,6 +90,27 @@ Proof.
 Qed.
 Print Assumptions C27_backoff_monotone_capped.
 
+(** Multi-segment backlog with the 10 s in-loop ticker advance ([send_ms], repaired code):
+    for EVERY head segment, every backlog behind it and every pattern of ticker firings, one
+    SendWrite posts exactly the batches of the head segment, in order, and leaves every other
+    segment queued: nothing is lost, nothing is reordered.  (Before the repair of finding
+    repl-ticker-advance-at-segment-end-drops-next-segment this was refuted: a ticker advance
+    right after the last block of the head dropped the whole next segment unsent.) *)
+Theorem C27_multi_segment_no_loss :
+  forall head rest ticks, head <> [] ->
+    send_ms (head :: rest) ticks = (head, concat rest).
+Proof.
+  intros head rest ticks Hh. destruct head as [|b t]; [congruence|]. cbn [send_ms].
+  rewrite send_ms_loop_spec. reflexivity.
+Qed.
+Print Assumptions C27_multi_segment_no_loss.
+
+(** The former refutation witness: three one-batch segments, ticker fired after the first
+    batch; batch [2] is now still queued. *)
+Example C27_ticker_advance_at_segment_end_now_safe :
+  send_ms [[[1]]; [[2]]; [[3]]] [true] = ([[1]], [[2]; [3]]).
+Proof. reflexivity. Qed.
+
 (** Non-vacuity: three batches; the second answer is a 500 on the first call (nothing
     removed, the first batch is posted again later: at least once), then 429 with
     Retry-After: 5 (delay = 5 s), then all accepted. *)
